@@ -81,12 +81,24 @@ pub enum Isolated {
 }
 
 pub fn exec_isolated(run: &Run, limit: Duration) -> Isolated {
+    exec_isolated_masked(run, limit, None)
+}
+
+pub fn exec_isolated_masked(run: &Run, limit: Duration, mask: Option<&str>) -> Isolated {
     let dir = format!("{}/out/tmp", home());
     let _ = std::fs::create_dir_all(&dir);
     let path = format!("{}/iso_{}_{}.json", dir, std::process::id(), NEXT_TMP.fetch_add(1, Ordering::SeqCst));
     std::fs::write(&path, serde_json::to_string(run).unwrap()).expect("write temp run");
     let exe = std::env::current_exe().expect("current_exe");
-    let mut child = Command::new(exe).arg("exec").arg(&path).arg("--progress").stdin(Stdio::null()).stdout(Stdio::piped()).stderr(Stdio::null()).spawn().expect("spawn exec child");
+    let mut cmd = match mask {
+        Some(m) => {
+            let mut c = Command::new("taskset");
+            c.arg("-c").arg(m).arg(exe);
+            c
+        }
+        None => Command::new(exe),
+    };
+    let mut child = cmd.arg("exec").arg(&path).arg("--progress").stdin(Stdio::null()).stdout(Stdio::piped()).stderr(Stdio::null()).spawn().expect("spawn exec child");
     let stdout = child.stdout.take().unwrap();
     let last_op = Arc::new(AtomicU64::new(0));
     let result: Arc<Mutex<Option<Outcome>>> = Arc::new(Mutex::new(None));
@@ -185,6 +197,8 @@ pub struct CheckCfg {
     pub determinism: bool,
     pub collect_codes: bool,
     pub only: Option<Vec<u64>>,
+    /// pin every worker process to a single CPU (DashMap sizes its shards from the CPU count)
+    pub pin_workers: bool,
 }
 
 pub struct CheckResult {
@@ -226,7 +240,7 @@ pub fn run_batch(cfg: &CheckCfg, indices: Vec<u64>) -> (AggOut, Vec<(u64, String
         let property = cfg.property.clone();
         let tier = cfg.tier.clone();
         // thorough C10: half of the workers run pinned to one CPU (DashMap shard count differs)
-        let mask: Option<String> = if cfg.property == "C10" && cfg.tier != "quick" && w % 2 == 1 { Some(format!("{}", w % 16)) } else { None };
+        let mask: Option<String> = if cfg.pin_workers { Some(format!("{}", w % 16)) } else { None };
         handles.push(std::thread::spawn(move || {
             loop {
                 // (re)spawn a worker process and feed it until the queue is empty or it dies
@@ -380,6 +394,28 @@ pub fn check(cfg: &CheckCfg) -> i32 {
     let (AggOut(mut agg), suspects) = run_batch(cfg, indices);
     let wall_runs = t0.elapsed().as_secs_f64();
 
+    // C10, clause "separate processes": the same run indices again in other OS processes (other
+    // worker count, each pinned to one CPU, reversed order); every output of every build is in the
+    // per-run log hash, so equal hashes = byte-identical outputs across processes.
+    let mut cross_compared = 0u64;
+    let mut cross_diff: Vec<u64> = vec![];
+    if cfg.property == "C10" && cfg.only.is_none() {
+        let n = if cfg.tier == "quick" { cfg.runs.min(4000) } else { cfg.runs.min(100_000) };
+        let cfg2 = CheckCfg { property: cfg.property.clone(), tier: cfg.tier.clone(), runs: n, workers: 5, determinism: true, collect_codes: false, only: None, pin_workers: true };
+        let (AggOut(b), _s2) = run_batch(&cfg2, (0..n).rev().collect());
+        for (i, h) in &b.log_hashes {
+            if let Some(h1) = agg.log_hashes.get(i) {
+                cross_compared += 1;
+                if h1 != h {
+                    cross_diff.push(*i);
+                }
+            }
+        }
+        agg.stats.fresh_builds += b.stats.fresh_builds;
+        agg.stats.c10_variants_built += b.stats.c10_variants_built;
+        *agg.stats.fired.entry("separate_os_process_single_cpu".into()).or_insert(0) += cross_compared;
+    }
+
     let mut harness_errors: Vec<String> = agg.harness.clone();
     harness_errors.sort();
     harness_errors.dedup();
@@ -443,6 +479,16 @@ pub fn check(cfg: &CheckCfg) -> i32 {
                 stash_special(&mut agg, idx, r, v);
             }
         }
+    }
+
+    for idx in cross_diff.iter().take(3) {
+        let mut run = plan(&corpus, &cfg.property, &cfg.tier, root, *idx);
+        run.violation_class = "differ:across-os-processes".into();
+        run.observed = json!({"property": "C10", "class": run.violation_class, "detail": "the per-run log hash (all outputs of all variants) differs between two OS processes (16 workers unpinned vs 5 workers each pinned to one CPU)", "first_seen_in_run": idx, "root_seed": root});
+        let path = replay_path("C10", &run);
+        std::fs::write(&path, serde_json::to_string_pretty(&run).unwrap()).expect("write replay file");
+        let v = Violation { property: "C10".into(), class: run.violation_class.clone(), detail: run.observed.clone(), op_index: 0 };
+        reported.push((v, path));
     }
 
     // minimise and write replay files
@@ -509,7 +555,7 @@ pub fn check(cfg: &CheckCfg) -> i32 {
     let wall = t0.elapsed().as_secs_f64();
     let (distinct_nontrivial, rule) = match cfg.property.as_str() {
         "C14" => (agg.nontrivial_histories.len(), "runs are seeded histories (write/create/delete, deliver, update, rebuild, faults, checkpoint) over corpus projects; distinct = distinct hash of the explicit operation list incl. content hashes; non-trivial = the history replaced an already cached module with different content AND reached at least one checkpoint in a content-synced state where session and fresh process were actually compared".to_string()),
-        "C10" => (agg.nontrivial_histories.len(), "one evaluation = one SimFs built by k fresh simulated processes that differ in hash keys, pre-registration order, repetition and entry-point order, outputs compared bytewise; distinct = distinct (SimFs, variant set) hash; non-trivial = the build produced code or at least one diagnostic".to_string()),
+        "C10" => (agg.nontrivial_histories.len(), "one evaluation = one SimFs built by k fresh simulated processes that differ in hash keys, pre-registration order, repetition and entry-point order, outputs compared bytewise; distinct = distinct SimFs (hash of all paths and contents); non-trivial = the build produced code or at least one diagnostic".to_string()),
         _ => (agg.fs_hashes.len(), "every build of every run is checked against I-C04 (no panic, code xor >=1 diagnostic, both entry points agree, located diagnostics inside the file); distinct_nontrivial = distinct file-system states (hash of all paths and contents) that were actually built".to_string()),
     };
     let evidence = json!({
@@ -537,6 +583,7 @@ pub fn check(cfg: &CheckCfg) -> i32 {
             "c04_located_diagnostics_checked": agg.stats.c04_locations_checked,
             "c10_comparisons": agg.stats.c10_comparisons,
             "c10_variants_built": agg.stats.c10_variants_built,
+            "c10_runs_compared_across_os_processes": cross_compared,
             "faults_fired": agg.stats.fired,
             "rare_condition_probes": agg.stats.probes,
             "known_findings_hit": agg.stats.known_findings,
@@ -702,6 +749,25 @@ pub fn replay_file(path: &str, quiet: bool) -> i32 {
     };
     let want_prop = run.observed.get("property").and_then(|v| v.as_str()).unwrap_or(&run.property).to_string();
     let class = run.violation_class.clone();
+    if class == "differ:across-os-processes" {
+        let a = exec_isolated_masked(&run, Duration::from_secs(60), None);
+        let b = exec_isolated_masked(&run, Duration::from_secs(60), Some("0"));
+        return match (a, b) {
+            (Isolated::Done(a), Isolated::Done(b)) if a.log_hash != b.log_hash => {
+                if !quiet {
+                    println!("VIOLATION property=C10 replay={} class={}", path, class);
+                }
+                1
+            }
+            (Isolated::Done(_), Isolated::Done(_)) => {
+                if !quiet {
+                    println!("replay of {} did not reproduce class '{}'", path, class);
+                }
+                0
+            }
+            _ => 2,
+        };
+    }
     let hit = match exec_isolated(&run, Duration::from_secs(60)) {
         Isolated::Done(out) => out.violations.iter().find(|v| v.property == want_prop && (class.is_empty() || v.class == class)).map(|v| (v.property.clone(), v.class.clone())),
         Isolated::Stalled { .. } => {
@@ -743,7 +809,7 @@ pub fn read_all(mut r: impl Read) -> String {
 
 /// Determinism self-test: every run index twice, in different worker processes / worker counts.
 pub fn determinism(property: &str, tier: &str, runs: u64) -> i32 {
-    let mk = |workers| CheckCfg { property: property.to_string(), tier: tier.to_string(), runs, workers, determinism: true, collect_codes: false, only: None };
+    let mk = |workers| CheckCfg { property: property.to_string(), tier: tier.to_string(), runs, workers, determinism: true, collect_codes: false, only: None, pin_workers: false };
     let (AggOut(a), s1) = run_batch(&mk(16), (0..runs).collect());
     let (AggOut(b), s2) = run_batch(&mk(3), (0..runs).rev().collect());
     let mut diff = 0;
